@@ -1,4 +1,5 @@
 """C15 (history property; see DESIGN.md section 5)."""
+import gen
 from props.hist_base import HistPlugin
 
 
@@ -14,3 +15,10 @@ class Plugin(HistPlugin):
             'fails or upserts; distinct by canonical JSON.')
     FINDING_BITS = 0
     UNDECIDED_BITS = 1
+
+    def gen_case(self, rng, i, tier):
+        gen.TINY[0] = rng.random() < 0.6
+        try:
+            return HistPlugin.gen_case(self, rng, i, tier)
+        finally:
+            gen.TINY[0] = False
